@@ -196,13 +196,16 @@ def run(tier: str, seed: int) -> int:
                     okc = False
                     for cand in (k0, jax.random.split(k0)[0], jax.random.split(k0)[1]):
                         wh = np.asarray(ex.fft(ex.ic.WhiteNoise(D)(N, key=cand)))
-                        nz = (k2 > 0) & (np.abs(wh) > 1e-6 * np.max(np.abs(wh)))
-                        ratio = (uh / np.where(np.abs(wh) > 0, wh, 1.0)) / law
-                        c = np.mean(ratio[nz])
-                        if abs(c) > 1e-12 and np.max(np.abs(ratio[nz] - c)) <= 1e-8 * abs(c) and abs(c.imag) <= 1e-9 * abs(c):
+                        shaped = law * wh
+                        nz = (k2 > 0)
+                        big = nz & (np.abs(shaped) > 1e-3 * np.max(np.abs(shaped[nz])))
+                        c = np.vdot(shaped[big], uh[big]) / np.vdot(shaped[big], shaped[big])          # least-squares factor on the significant modes
+                        resid = np.max(np.abs(uh[nz] - c * shaped[nz]))
+                        # absolute criterion: strongly damped modes are below the rounding of the transform of the field
+                        if abs(c) > 1e-12 and resid <= 1e-9 * np.max(np.abs(uh[nz])) and abs(c.imag) <= 1e-9 * abs(c):
                             okc = True
                             if F["lawdc"]:
-                                dc = ratio.flatten()[0]
+                                dc = uh.flatten()[0] / wh.flatten()[0]
                                 if abs(c - 1) > 1e-9 or abs(dc - 1) > 1e-9:
                                     bad("law-unit-factor", c=[c.real, c.imag], dc=[dc.real, dc.imag])
                             break
